@@ -154,6 +154,25 @@ PROPS = {
                    'and {r} (raw) are excluded by their documented meaning. NUL bytes are outside the quantifier.',
         technique='Lean 4 proof (round-trip through a shell word-splitting model, by induction on the text) + correspondence incl. real shells',
     ),
+    'C16': dict(
+        areas=[('http', 6000, 600000)],
+        rule='requests assembled from GET / POST / malformed request lines, Content-Length (exact, off by one, 0, > 1 MiB, '
+             'non-numeric, missing) and X-API-Key (exact, prefix, extended, upper-cased, empty, missing) headers in random order '
+             'and case, junk headers, missing blank line, action-list bodies (valid, unknown, empty, with CR/LF), early close, '
+             '70 000-byte lines; every request is written in seeded chunkings (whole, byte by byte, random cuts) and then closed; '
+             'non-trivial = a request that reaches the key check (GET / POST accepted or 401); distinct = distinct case lines',
+        trusted=['net.Pipe as the connection (the real TCP socket and the 10 s read deadline are exercised by the tmux driver only)',
+                 'bufio.Scanner (its buffer management is modelled) ', 'parseSingleActionList is external here (C17); the check '
+                 'compares what the server delivers with what --bind yields for the same text'],
+        level_text='Lean 4 theorems about the request model: with a configured key an accepting answer (actions or state) implies '
+                   'the x-api-key value equals the key; a rejection decided while scanning is final; an accepted POST hands over '
+                   'exactly the first Content-Length bytes and only if that many arrived; the content length is bounded by 1 MiB. '
+                   'handleHttpRequest is run over a pipe with scripted chunking and compared with the model (incl. the '
+                   'chunk-dependent bufio.Scanner behaviour); delivered actions are compared with parseSingleActionList.',
+        level_note='Fixed while building: F8 (GET answered before the API key was read). A non-local listener refusing to start '
+                   'without a key and the socket-level liveness are covered by the process driver, not by theorems.',
+        technique='Lean 4 proof (access-rule theorems over the request state machine) + model/implementation correspondence under scripted chunking',
+    ),
     'C18': dict(
         level_text='Lean 4 theorems over a hand-written model of src/history.go (file contents after any sequence of '
                    'sessions, cursor range, slot-editor refinement, edits never persisted), tied to /repo by an in-process '
